@@ -345,23 +345,49 @@ def asc_facts():
     return out
 
 
+ASSUMPTIONS = [
+    "regex-model: a pattern method is its LANGUAGE: pattern.search/match/fullmatch(s) is not None iff s is in the regular language pyvc/regex_z3.py "
+    "derives from re._parser's parse of the pattern text (Python's `$`, Unicode \\s / \\d as `re` itself classifies every code point); the sre matcher is "
+    "assumed to implement that language and to report groups that come from SOME decomposition of the text along the pattern; translator cross-checked "
+    "against re on random strings by tools/xcheck_regex_z3.py",
+    "regex-model: z3's alphabet ends at U+2FFFF, which stands for every later code point (each class of a translated pattern is checked to treat all of them alike)",
+    "regex-reference: the argument grammars of float() / int() (library reference; blanks = str.isspace characters except U+001C..U+001F) and the writer's "
+    "texts format(v, '.4f') in -?[0-9]+\\.[0-9]{4} (finite v), str(k) in -?(0|[1-9][0-9]*) are taken from the documentation and cross-checked against the "
+    "interpreter by tools/xcheck_regex_z3.py, not proved",
+    "assumed-lemma: whitespace-token lemma (lean/Tokens.lean: token_split_unique, tokens_unique): a text splits in at most one way into blanks, a nonempty "
+    "blank-free token, and a rest that is empty or starts with a blank; so two decompositions blanks tok blanks+ tok ... tok rest with equally many tokens "
+    "agree.  Instance: blanks = str.isspace characters, tokens = the column groups (facts column-*-is-a-nonempty-whitespace-free-token, "
+    "separator-*-is-nonempty-whitespace, leading-part-is-whitespace, after-the-last-column-comes-whitespace-or-the-end): ANY decomposition of a row line "
+    "along the row pattern binds group i to the i-th whitespace-delimited token",
+    "regex-facts: pattern texts, flags and matching methods are read on every run by running the real parse_swc / Lexer.__next__ with a recording stand-in for `re`",
+]
+
+
 def facts(prop):
-    """[(label, hyps, goal, kind, note)] for vcheck"""
+    """(assumptions, [(label, hyps, goal, kind, note)]) for vcheck"""
     if prop == "C02":
-        fs = swc_facts(0) + swc_facts(1) + token_lemma_facts()
+        fs = swc_facts(0) + swc_facts(1)
     elif prop == "C01":
-        fs = swc_facts(0, writer_only=True) + token_lemma_facts()
+        fs = swc_facts(0, writer_only=True)
     elif prop == "C15":
         fs = asc_facts()
     else:
-        return []
+        return [], []
     out = []
     for f in fs:
         out.append((f.label, [], f.goal, "regex", f.note))
         if f.nonempty is not None:
             s = _s()
             out.append(("cover/" + f.label, [z3.InRe(s, f.nonempty)], z3.BoolVal(False), "cover", "the left-hand language is not empty"))
-    return out
+    return list(ASSUMPTIONS), out
+
+
+def counter_text(model_sexpr):
+    """the text of a counter-model (z3 prints `(define-fun s!7 () String "0\\u{660}")`): the string that refutes the fact"""
+    m = re.search(r'\(define-fun\s+s!\d+\s+\(\)\s+String\s+"((?:[^"]|"")*)"\)', model_sexpr or "")
+    if not m:
+        return None
+    return re.sub(r"\\u\{([0-9a-fA-F]+)\}", lambda k: chr(int(k.group(1), 16)), m.group(1).replace('""', '"'))
 
 
 if __name__ == "__main__":  # timing / debugging:  python -m contracts.regex_facts C02 [substring]
@@ -371,7 +397,7 @@ if __name__ == "__main__":  # timing / debugging:  python -m contracts.regex_fac
     from pyvc import smt
 
     prop = sys.argv[1]
-    for lab, hyps, goal, kind, note in facts(prop):
+    for lab, hyps, goal, kind, note in facts(prop)[1] + [(f.label, [], f.goal, 'regex', f.note) for f in (token_lemma_facts() if os.environ.get('TOKEN') else [])]:
         if len(sys.argv) > 2 and sys.argv[2] not in lab:
             continue
         txt = smt.to_smt2(hyps, goal)
